@@ -4,8 +4,9 @@ import MlModel.Model.Agg.HeapObs
 # Returned values and caller writes: invariants for every lawful class (work package C11T)
 
 `HLawsR cls` = `HLaws` for make / add / merge plus what `add`'s returned object and `result()` must
-guarantee: `result()` writes no existing cell; the private arrays of a returned value are fresh and
-are not referenced by the accumulator; the exposed ones are `shared` (never written) cells of the
+guarantee: `result()` writes no existing cell; the private arrays of a returned value are fresh (or,
+for `add`, arrays the receiver owned and has just let go: the *previous state object* of an
+`update_state` that returns a new one) and are not referenced by the accumulator; the exposed ones are `shared` (never written) cells of the
 accumulator.  From that, for every history of make / add / merge / result / poke:
 
 * `InvR`: separation, every private array ever returned is referenced by **no** accumulator, every
@@ -139,7 +140,7 @@ theorem evolves_step {cls : HClass C B} (laws : HLaws cls) {σ : Sys cls} (hs : 
 structure HLawsR (cls : HClassR C B) : Prop where
   base : HLaws cls.toHClass
   addOut_spec : ∀ h o b, Valid h (cls.fp o) → SelfSep (cls.fp o) →
-    (∀ r ∈ (cls.addOut h o b).priv, h.size ≤ r ∧ r < (cls.add h o b).1.size ∧
+    (∀ r ∈ (cls.addOut h o b).priv, (h.size ≤ r ∨ r ∈ (cls.fp o).owned) ∧ r < (cls.add h o b).1.size ∧
       r ∉ (cls.fp (cls.add h o b).2).refs) ∧
     (∀ r ∈ (cls.addOut h o b).exposed, r ∈ (cls.fp o).shared)
   result_spec : ∀ h o, Valid h (cls.fp o) →
@@ -244,9 +245,11 @@ theorem InvR.step {cls : HClassR C B} (laws : HLawsR cls) {σ : SysR cls} (inv :
           exact h3 hm
         · simp only [] at hj'
           rw [List.getElem?_set_ne (Ne.symm hji)] at hj'
-          have := inv.sep.valid j oj hj' r hm
-          have h1' : σ.base.heap.size ≤ r := h1
-          omega
+          rcases h1 with h1 | h1
+          · have := inv.sep.valid j oj hj' r hm
+            have h1' : σ.base.heap.size ≤ r := h1
+            omega
+          · exact inv.sep.sep i j o oj (Ne.symm hji) hi hj' r h1 hm
     · intro out hout r hr
       rcases outs_base_old σ op out hout with h | ⟨i, b, o, rfl, hi, rfl⟩
       · exact (inv.exposed out h r hr).evolve ev
@@ -366,12 +369,13 @@ theorem notOwned_read_step {cls : HClassR C B} (laws : HLawsR cls) {σ : SysR cl
       have hne : r ≠ t := fun e => hp (by simp only [OpR.pokes]; rw [hk, e])
       exact ⟨read_write_other _ _ hne, by simp only [NotOwned, size_write]; exact hr⟩
 
-/-- a poke that hits an old cell after a step already named that cell before the step: values
-returned by the step itself have fresh private arrays -/
+/-- a poke that hits a cell nobody owned before a step already named that cell before the step: the
+private arrays of a value returned by the step itself are fresh, or were owned by the receiver -/
 theorem pokeRef_step {cls : HClassR C B} (laws : HLawsR cls) {σ : SysR cls} (inv : InvR σ)
-    (op : OpR B C) {k n : Nat} {r : Ref} (hlt : r < σ.heap.size)
+    (op : OpR B C) {k n : Nat} {r : Ref} (hno : NotOwned σ r)
     (h : (σ.step op).pokeRef k n = some r) : σ.pokeRef k n = some r := by
-  have key : ∀ (extra : Out), (∀ t ∈ extra.priv, σ.heap.size ≤ t) →
+  have key : ∀ (extra : Out), (∀ t ∈ extra.priv, σ.heap.size ≤ t ∨
+        ∃ (i : Nat) (o : cls.Obj), σ.objs[i]? = some o ∧ t ∈ (cls.fp o).owned) →
       ((σ.outs ++ [extra])[k]?).bind (fun o => o.priv[n]?) = some r → σ.pokeRef k n = some r := by
     intro extra hfresh h
     simp only [SysR.pokeRef]
@@ -381,7 +385,9 @@ theorem pokeRef_step {cls : HClassR C B} (laws : HLawsR cls) {σ : SysR cls} (in
       rw [hk] at h
       rcases getElem?_append_singleton hk with h' | ⟨_, rfl⟩
       · rw [h']; exact h
-      · have := hfresh r (List.mem_of_getElem? h); omega
+      · rcases hfresh r (List.mem_of_getElem? h) with h1 | ⟨i, o, hi, hm⟩
+        · have := hno.1; omega
+        · exact absurd hm (hno.2 i o hi)
   cases op with
   | base op =>
     cases op with
@@ -394,7 +400,7 @@ theorem pokeRef_step {cls : HClassR C B} (laws : HLawsR cls) {σ : SysR cls} (in
       | some o =>
         rw [hi] at h
         obtain ⟨hp, _⟩ := laws.addOut_spec σ.heap o b (inv.sep.valid i o hi) (inv.sep.self i o hi)
-        exact key _ (fun t ht => (hp t ht).1) h
+        exact key _ (fun t ht => (hp t ht).1.elim Or.inl (fun hm => Or.inr ⟨i, o, hi, hm⟩)) h
   | result i =>
     simp only [SysR.step] at h
     cases hi : σ.objs[i]? with
@@ -402,7 +408,7 @@ theorem pokeRef_step {cls : HClassR C B} (laws : HLawsR cls) {σ : SysR cls} (in
     | some o =>
       rw [hi] at h
       obtain ⟨_, hp, _⟩ := laws.result_spec σ.heap o (inv.sep.valid i o hi)
-      exact key _ (fun t ht => (hp t ht).1) h
+      exact key _ (fun t ht => Or.inl (hp t ht).1) h
   | poke k' n' c =>
     simp only [SysR.step] at h
     cases hk : σ.pokeRef k' n' with
@@ -426,7 +432,7 @@ theorem notOwned_read_run {cls : HClassR C B} (laws : HLawsR cls) (ops : List (O
       | result i => exact fun e => e
     obtain ⟨h1, h2⟩ := notOwned_read_step laws inv op hr hnp
     have := ih (σ.step op) (inv.step laws op) r h2 (fun k n c hm e =>
-      hp k n c (List.mem_cons_of_mem _ hm) (pokeRef_step laws inv op hr.1 e))
+      hp k n c (List.mem_cons_of_mem _ hm) (pokeRef_step laws inv op hr e))
     simp only [SysR.run, List.foldl_cons] at this ⊢
     rw [this, h1]
 
